@@ -187,3 +187,92 @@ Proof. vm_compute. split; reflexivity. Qed.
 Example ex_b64_decided : robust_grid (0, 0) (4, 0) (0, 4) (1, 1) = 0 /\ robust_grid (0, 0) (4, 0) (0, 4) (4, 4) = 1
   /\ robust_grid (0, 0) (4, 0) (0, 4) (5, 5) = 2 /\ bounded25 (33554432, -33554432).
 Proof. unfold bounded25. vm_compute. repeat split; congruence. Qed.
+
+(* ---------------------------------------------------------------------------------------------------------------------
+   The quad-edge algebra (hand model C16/QuadEdgeDefs.v of QuadEdge / QuadEdgeQuartet / QuadEdgeSubdivision::{initSubdiv,
+   connect, remove}, run beside the real objects by harness/c16_quadedge.cpp): invariants of every state reached from the empty
+   structure by a legal history of makeEdge / splice / connect / swap / remove. *)
+Require GeosV.C16.QuadEdgeDefs GeosV.C16.QuadEdgeProofs.
+Module C16_QuadEdge.
+Import GeosV.C16.QuadEdgeDefs GeosV.C16.QuadEdgeProofs.
+
+(* the induction over operation histories *)
+Theorem C16_qe_reachable_invariant : forall h, legal_from empty h = true -> Inv (run empty h).
+Proof. exact reachable_Inv. Qed.
+Print Assumptions C16_qe_reachable_invariant.
+
+Theorem C16_qe_step_invariant : forall s o, Inv s -> legal s o = true -> Inv (step s o).
+Proof. exact step_Inv. Qed.
+Print Assumptions C16_qe_step_invariant.
+
+(* rot^4 = id, sym = rot^2, invRot = rot^-1 *)
+Theorem C16_qe_rot_group : forall e,
+  rot (rot (rot (rot e))) = e /\ sym e = rot (rot e) /\ invRot (rot e) = e /\ rot (invRot e) = e.
+Proof. exact qe_rot_group. Qed.
+Print Assumptions C16_qe_rot_group.
+
+(* e Onext Rot Onext Rot = e, in both readings *)
+Theorem C16_qe_dual_axiom : forall s, reachable s ->
+  forall e, rot (oNext s (rot (oNext s e))) = e /\ oNext s (rot (oNext s (rot e))) = e.
+Proof. exact qe_dual_axiom. Qed.
+Print Assumptions C16_qe_dual_axiom.
+
+(* oNext is a permutation with inverse oPrev; it keeps primal / dual, allocated and alive edges among themselves *)
+Theorem C16_qe_onext_permutation : forall s, reachable s ->
+  forall e, oPrev s (oNext s e) = e /\ oNext s (oPrev s e) = e
+         /\ par (oNext s e) = par e
+         /\ (usable s e = true -> usable s (oNext s e) = true /\ usable s (oPrev s e) = true)
+         /\ (allocated s e = true -> allocated s (oNext s e) = true).
+Proof. exact qe_onext_permutation. Qed.
+Print Assumptions C16_qe_onext_permutation.
+
+(* a removed quartet is detached: its four edges point where the QuadEdgeQuartet constructor pointed them *)
+Theorem C16_qe_removed_detached : forall s, reachable s ->
+  forall e, is_dead s e = true -> oNext s e = (fst e, init_next (snd e)) /\ allocated s e = true.
+Proof. exact qe_removed_detached. Qed.
+Print Assumptions C16_qe_removed_detached.
+
+Theorem C16_qe_remove_isolates : forall s e, reachable s -> legal s (Remove e) = true ->
+  forall x, fst x = fst e -> oNext (remove e s) x = (fst x, init_next (snd x)).
+Proof. exact qe_remove_isolates. Qed.
+Print Assumptions C16_qe_remove_isolates.
+
+(* splice twice = nothing *)
+Theorem C16_qe_splice_involution : forall s a b, reachable s -> legal s (Splice a b) = true ->
+  (forall e, oNext (splice a b (splice a b s)) e = oNext s e)
+  /\ (forall e, orig (splice a b (splice a b s)) e = orig s e)
+  /\ nq (splice a b (splice a b s)) = nq s /\ dead (splice a b (splice a b s)) = dead s.
+Proof. exact qe_splice_involution. Qed.
+Print Assumptions C16_qe_splice_involution.
+
+(* FULL STATEMENT (not proved): b lies on the oNext ring of a after splice a b iff it did not before (merge / split).
+   Proved: the pointer exchange that causes it. *)
+Theorem C16_qe_splice_rings_partial : forall s a b, reachable s -> legal s (Splice a b) = true ->
+  let s' := splice a b s in
+  oNext s' a = oNext s b /\ oNext s' b = oNext s a
+  /\ oNext s' (rot (oNext s a)) = oNext s (rot (oNext s b))
+  /\ oNext s' (rot (oNext s b)) = oNext s (rot (oNext s a))
+  /\ (forall e, e <> a -> e <> b -> e <> rot (oNext s a) -> e <> rot (oNext s b) -> oNext s' e = oNext s e).
+Proof. exact qe_splice_exchange. Qed.
+Print Assumptions C16_qe_splice_rings_partial.
+
+(* FULL STATEMENT (not proved): additionally lNext s' a = q /\ lNext s' q = b (same left face). *)
+Theorem C16_qe_connect_partial : forall s a b, reachable s -> legal s (Connect a b) = true ->
+  let s' := fst (connect a b s) in let q := snd (connect a b s) in
+  q = (nq s, R0) /\ nq s' = S (nq s) /\ orig s' q = dest s a /\ dest s' q = orig s b
+  /\ (forall e, fst e <> nq s -> orig s' e = orig s e).
+Proof. exact qe_connect_partial. Qed.
+Print Assumptions C16_qe_connect_partial.
+
+(* non-vacuity: the triangle of ex_triangle is reachable, the operations below are legal on it, and the boolean form of the
+   invariant, the rings and the lNext cycle of the triangle are as expected *)
+Example ex_qe_reachable : reachable tri_state /\ legal_from empty quad_history = true
+  /\ legal tri_state (Splice (0%nat, R0) (1%nat, R0)) = true /\ legal tri_state (Connect (0%nat, R0) (2%nat, R0)) = true
+  /\ legal tri_state (Remove (2%nat, R0)) = true /\ legal tri_state (Swap (2%nat, R0)) = true
+  /\ is_dead (run empty quad_history) (4%nat, R1) = true /\ usable tri_state (1%nat, R3) = true.
+Proof. split; [exact ex_reachable_tri | vm_compute; repeat split]. Qed.
+Example ex_qe_triangle : inv_b tri_state = true
+  /\ orbit tri_state (0%nat, R0) = [(0%nat, R0); (2%nat, R2)] /\ orbit tri_state (0%nat, R1) = [(0%nat, R1); (2%nat, R1); (1%nat, R1)]
+  /\ lNext tri_state (1%nat, R0) = (2%nat, R0) /\ lNext tri_state (2%nat, R0) = (0%nat, R0) /\ lNext tri_state (0%nat, R0) = (1%nat, R0).
+Proof. vm_compute. repeat split. Qed.
+End C16_QuadEdge.
